@@ -76,3 +76,22 @@ Proof.
   destruct (check_loop_spec fl _ _ _ _ Hres) as [[Hok _]|[_ He]]; [|contradiction].
   rewrite Hok. cbn [bind]. rewrite Hp. eexists; reflexivity.
 Qed.
+
+(** [specialize()] never yields a child one of whose own constraints the parent's field
+    values violate: what it returns is what [Child::try_from(&parent)] returns, which
+    fails on a violated constraint. *)
+Theorem specialize_respects_constraints fuel oc fl sch d pobj cid v c :
+  rust_specialize fuel oc fl sch d pobj = Ok (Some (cid, v)) ->
+  lookup_decl fl cid = Some c ->
+  Forall (resolvable fl (iter_fields fl d) (iter_constraints fl d) pobj) (decl_constraints c) ->
+  ~ Exists (violated fl (iter_fields fl d) (iter_constraints fl d) pobj) (decl_constraints c).
+Proof.
+  intros Hs Hl Hres Hex. unfold rust_specialize in Hs.
+  destruct (specialize_plan fl sch d) as [plan|]; [|discriminate].
+  match type of Hs with (if ?b then _ else _) = _ => destruct b; [discriminate|] end.
+  match type of Hs with match ?x with _ => _ end = _ => destruct x as [cid'|]; [|discriminate] end.
+  destruct (lookup_decl fl cid') as [c'|] eqn:El'; [|discriminate].
+  destruct (try_from_parent fuel oc fl sch c' d pobj) as [v'| | |] eqn:Et; cbn [bind] in Hs; try discriminate.
+  inversion Hs; subst cid' v'. rewrite Hl in El'. inversion El'; subst c'.
+  rewrite (try_from_parent_constraint_error fuel oc fl sch c d pobj Hres Hex) in Et. discriminate.
+Qed.
